@@ -188,7 +188,14 @@ def run_check(run, tier):
         paths = sess.explore(thunk)
     except Unsupported as ex:
         run.add('C13/traces/supported', 'unsupported', '', 0, FN, str(ex))
-        run.undecide('C13/traces/supported', str(ex))
+        out = native({'kind': 'traces_filters_search', 'config': {}, 'eventid': 0x40c0000, 'tid': 5}, timeout=600)
+        run.bounded.append({'what': 'native grid of filter settings over the demonstration stream (refute mode only)', 'tried': out.get('tried'),
+                            'found': bool(out.get('violates'))})
+        if out.get('violates'):
+            run.violation('C13/traces/supported', {'request': out.get('request'), 'native': out, 'solver_output': 'unsupported construct: %s' % ex}, True,
+                          what=out.get('what', ''))
+        else:
+            run.undecide('C13/traces/supported', str(ex))
         return
     agg = {}
     for p in paths:
